@@ -1,0 +1,27 @@
+//! Verification-only public surface (see /verif).  Compiled only with
+//! `--cfg oxfordcontrol_clarabel_rs_verif`.  Add-only: re-exports of items that are
+//! `pub` inside crate-private modules, and thin forwarders to `pub(crate)` functions.
+#![allow(non_snake_case, missing_docs)]
+
+use crate::algebra::*;
+use crate::solver::core::cones::SupportedConeT;
+
+/// cone types and traits (the `cones` module is `pub` inside the crate-private `solver::core`)
+pub mod cones {
+    pub use crate::solver::core::cones::*;
+}
+
+/// core solver types
+pub mod core {
+    pub use crate::solver::core::kktsolvers::*;
+    pub use crate::solver::core::traits::*;
+    pub use crate::solver::core::*;
+}
+
+pub fn cone_nvars<T>(c: &SupportedConeT<T>) -> usize {
+    c.nvars()
+}
+
+pub fn new_collapsed<T: FloatT>(cones: &[SupportedConeT<T>]) -> Vec<SupportedConeT<T>> {
+    SupportedConeT::new_collapsed(cones)
+}
